@@ -7,7 +7,7 @@ use serde_json::{json, Value};
 use crate::{pipe::{self, Input}, report::*, util};
 
 /// Base input sets; the observed module is always `o`.
-fn bases() -> Vec<(&'static str, Vec<(String, String)>)> {
+pub fn bases() -> Vec<(&'static str, Vec<(String, String)>)> {
     let o_std = "pub type O {\n    vftable {\n        pub fn v(&self, p: *const X) -> u32;\n    },\n    pub n: *mut O,\n    pub x: X,\n}\nimpl O {\n    #[address(0x1000)]\n    pub fn f(&self, e: E) -> *const X;\n}\npub enum E: u32 {\n    A,\n    B = 4,\n}\npub type D {\n    #[base]\n    pub base: O,\n}\n#[address(0x2000)]\npub extern gx: *mut X;\n";
     let x_local = "pub type X {\n    pub a: u32,\n    pub b: u32,\n}\n";
     let a_mod = "pub type X {\n    pub a: u32,\n    pub b: u32,\n    pub c: u32,\n    pub d: u32,\n}\npub type Helper {\n    pub h: u32,\n}\n";
